@@ -169,6 +169,45 @@ func main(a, b [2]byte) ([]byte, uint8, bool) {
 `})
 }
 
+// importSetProgram draws a main program importing 1..5 packages that have
+// package-level variables (library and harness-owned ones), in a tape-chosen
+// source order: the number of imports is itself a boundary (none to sort, two,
+// many).
+func importSetProgram(t *rt.Tape) stream.Program {
+	pool := []string{"encoding/hex", "crypto/aes", "crypto/curve25519", "crypto/hkdf", "vsim", "vsim2"}
+	k := []int{1, 2, 2, 2, 3, 4, 5}[t.Choose(rt.SGen, 7)]
+	var imps []string
+	for len(imps) < k {
+		i := t.Choose(rt.SGen, len(pool))
+		imps = append(imps, pool[i])
+		pool = append(pool[:i:i], pool[i+1:]...)
+	}
+	has := map[string]bool{}
+	src := "package main\n\nimport (\n"
+	for _, im := range imps {
+		has[im] = true
+		src += "\t\"" + im + "\"\n"
+	}
+	src += ")\n\nfunc main(a, b [2]byte) ([]byte, uint64, uint8) {\n"
+	bytesExpr, u64, u8 := "a[:]", "uint64(a[0])", "b[1]"
+	if has["encoding/hex"] {
+		src += "\ts := hex.EncodeToString(b[:])\n"
+		bytesExpr = "[]byte(s)"
+	}
+	if has["crypto/aes"] {
+		u8 += " + uint8(aes.BlockSize)"
+	}
+	if has["vsim"] {
+		u64 += " + vsim.Acc + vsim.Mix(uint64(b[0]))"
+	}
+	if has["vsim2"] {
+		u64 += " + vsim2.Acc"
+		u8 += " + vsim2.Add(a[1]) + vsim2.Off"
+	}
+	src += "\treturn " + bytesExpr + ", " + u64 + ", " + u8 + "\n}\n"
+	return stream.Program{Name: fmt.Sprintf("crafted/import-set %v", imps), Src: src}
+}
+
 // failing are history programs whose compilation fails during code
 // generation, after their imports have been parsed and initialised.
 var failing = []string{`package main
@@ -441,7 +480,11 @@ func (w *world) Run(t *rt.Tape, trace bool) *core.Result {
 	sizes := [][]int{{64}, {64}}
 	switch k := t.Choose(rt.SGen, 8); {
 	case k < 3:
-		p = crafted[t.Choose(rt.SGen, len(crafted))]
+		if t.Choose(rt.SGen, 2) == 0 {
+			p = importSetProgram(t)
+		} else {
+			p = crafted[t.Choose(rt.SGen, len(crafted))]
+		}
 	case k < 6:
 		p = progs[t.Choose(rt.SGen, len(progs))]
 	default:
